@@ -630,6 +630,7 @@ fn pkt(input: &[V]) -> Vec<V> {
         let cl = znat(c.next()).min(40) as usize;
         let c0 = zbyte(c.next());
         let pl = znat(c.next()).min(300) as usize;
+        let delta = znat(c.next()).min(1 << 33).max(1) as u64;
         // payload bytes: a ramp seeded by the case
         let pc = PkCase {
             kind,
@@ -711,6 +712,45 @@ fn pkt(input: &[V]) -> Vec<V> {
         m.truncate(len - cut);
         let a = pk_decode(kind, &mut m, &keys.app_open, &keys.ctl_open, &keys.uni_open).map_or(false, |d| d.auth);
         out.push(a as V);
+        // retransmission of a stream data packet under a new packet number
+        let mut rt: [V; 4] = [0; 4];
+        let (mut rt_acc, mut rt_first, mut rt_xor): (V, V, V) = (0, -1, 0);
+        if kind == 0 && flags & 16 == 0 {
+            if let Some(new_pn) = pn.as_u64().checked_add(delta).and_then(|v| VarInt::new(v).ok()) {
+                let space = if flags & 64 != 0 { stream::PacketSpace::Recovery } else { stream::PacketSpace::Stream };
+                let mut r = pkt.clone();
+                let res = stream::decoder::Packet::retransmit(DecoderBufferMut::new(&mut r), space, new_pn, &keys.ctl_seal);
+                if res.is_ok() {
+                    let mut r2 = r.clone();
+                    let rp = r.clone();
+                    if let Some(d) = pk_decode(0, &mut r, &keys.app_open, &keys.ctl_open, &keys.uni_open) {
+                        let ok = d.auth && d.payload == pc.payload && d.app == pc.app && d.cd == pc.cd;
+                        let wrong = pk_decode(0, &mut r2, &keys.app_open, &keys.ctl_open_wrong, &keys.uni_open)
+                            .map_or(false, |d| d.auth);
+                        rt = [ok as V, d.fields[8], d.fields[7], wrong as V];
+                        // every single-byte mutation of the retransmitted packet
+                        let mut w2 = rp.clone();
+                        for pos in 0..rp.len() {
+                            for x in 1..=255u8 {
+                                w2.copy_from_slice(&rp);
+                                w2[pos] ^= x;
+                                if let Some(m) = pk_decode(0, &mut w2, &keys.app_open, &keys.ctl_open, &keys.uni_open) {
+                                    if m.auth {
+                                        rt_acc += 1;
+                                        if rt_first < 0 {
+                                            rt_first = pos as V;
+                                            rt_xor = x as V;
+                                        }
+                                    }
+                                }
+                            }
+                        }
+                    }
+                }
+            }
+        }
+        out.extend(rt);
+        out.extend([rt_acc, rt_first, rt_xor]);
     } else {
         let cs = suite(c.next());
         let mut bytes: Vec<u8> = vec![];
